@@ -202,7 +202,14 @@ KthAvail(r, s, k) == IF s >= P.N \/ k < 1 THEN -1
 \* as a team) and every alternative on its own (C03: exactly one of the candidates is booked).  The candidate whose
 \* (first) resource would finish earliest wins, counting every available slot from the cursor as a whole slot; ties
 \* and failures go to the earlier candidate (primaries first, then the alternatives in the order written)
-EstEnd(t, rs, c) == IF rs = <<>> \/ T(t).effort = 0 THEN -1 ELSE KthAvail(rs[1], c, SlotsNeeded(t, rs[1]))
+\* backward tasks look the way they are placed, from the cursor towards the project start: the k-th available slot at or
+\* before s (-1 if the tables begin first); the candidate that needs the shortest stretch before the deadline wins (F100)
+KthAvailB(r, s, k) == IF s < 0 \/ k < 1 THEN -1
+                      ELSE LET av == SelectSeq([i \in 1..(Min2(s, P.N - 1) + 1) |-> Min2(s, P.N - 1) - i + 1], LAMBDA x : AvailR(r, x))
+                           IN  IF Len(av) >= k THEN av[k] ELSE -1
+EstEnd(t, rs, c) == IF rs = <<>> \/ T(t).effort = 0 THEN -1
+                    ELSE IF Fwd(t) THEN KthAvail(rs[1], c, SlotsNeeded(t, rs[1]))
+                    ELSE LET x == KthAvailB(rs[1], c, SlotsNeeded(t, rs[1])) IN IF x < 0 THEN -1 ELSE c - x
 RECURSIVE SelFrom(_, _, _, _, _)
 SelFrom(t, c, i, best, be) ==
   IF i > Len(T(t).alt) THEN best
